@@ -340,14 +340,15 @@ A_PhaseSum ==
 RightAnswer(req, M) ==
     \A cc \in {ConstraintCurrentsM(req, M)} :
         /\ DOMAIN cc = SeqRange(req)
-        /\ \A nm \in SeqRange(req) : cc[nm] = [k \in 1..t |-> ConSq(NetIdx(nm), k - 1)]
+        /\ \A nm \in SeqRange(req) : cc[nm] = M[NetIdx(nm)]
 \* (\A x \in {e} binds x to the VALUE of e: TLC then evaluates e once, not at every use)
 A_RightNames ==
     /\ Completed =>
           \A M \in {CurrentMatrix} :
+              /\ \A c \in 1..NC : M[c] = [k \in 1..t |-> ConSq(c, k - 1)]
               /\ \A req \in ReqUniverse(ThmLen) : RightAnswer(req, M)
               /\ \A j \in 1..Len(Requests) : RightAnswer(Requests[j], M)
-    /\ pc = "Picked" => RightAnswer(pick, CurrentMatrix)
+    /\ pc = "Picked" => \A M \in {CurrentMatrix} : RightAnswer(pick, M)
 \* The index bookkeeping does not depend on the state: decided once, for every subset in every order.
 SelectionRight ==
     \A req \in ReqUniverse(NC) :
